@@ -22,6 +22,7 @@ var Registry = map[string]func(tier string){
 	"C15": C15,
 	"C16": C16,
 	"C17": C17,
+	"C18": C18,
 	"C20": C20,
 }
 
